@@ -554,7 +554,7 @@ func vInitStoreScenarios() {
 		},
 		Judge: func(x *vSchedExec) [][3]string {
 			out := vStoreJudge(x, nil, vClosedMayFail)
-			if x.fs.Exists(vStoreDir + "/LOCK") {
+			if x.fs.Exists(vLock()) {
 				out = append(out, [3]string{"lock-left-after-close", "", "LOCK present after Close returned"})
 			}
 			return out
@@ -610,7 +610,7 @@ func vInitStoreScenarios() {
 		},
 		Judge: func(x *vSchedExec) [][3]string {
 			out := vStoreJudge(x, nil, vClosedMayFail)
-			if x.fs.Exists(vStoreDir + "/LOCK") {
+			if x.fs.Exists(vLock()) {
 				out = append(out, [3]string{"lock-left-after-close", "", "LOCK present after Close returned"})
 			}
 			return out
@@ -650,7 +650,7 @@ func vInitStoreScenarios() {
 			x.Spawn("B", func() { openOp(x, "B", &h, 1) })
 			x.Spawn("C", func() { openOp(x, "C", &h, 2) })
 			x.Join()
-			lockBefore := x.fs.Exists(vStoreDir + "/LOCK")
+			lockBefore := x.fs.Exists(vLock())
 			n := 0
 			for _, st := range h {
 				if st != nil {
@@ -658,7 +658,7 @@ func vInitStoreScenarios() {
 					x.Op("main", "CloseWinner", func() ([]uint32, error) { return nil, st.Close() })
 				}
 			}
-			x.notes = append(x.notes, fmt.Sprintf("winners=%d lockBefore=%v lockAfter=%v", n, lockBefore, x.fs.Exists(vStoreDir+"/LOCK")))
+			x.notes = append(x.notes, fmt.Sprintf("winners=%d lockBefore=%v lockAfter=%v", n, lockBefore, x.fs.Exists(vLock())))
 		},
 		Judge: func(x *vSchedExec) [][3]string {
 			var out [][3]string
@@ -689,7 +689,7 @@ func vInitStoreScenarios() {
 			x.Spawn("A", func() { x.Op("A", "Close", func() ([]uint32, error) { return nil, st.Close() }) })
 			x.Spawn("B", func() { openOp(x, "B", &h, 1) })
 			x.Join()
-			x.notes = append(x.notes, fmt.Sprintf("second=%v lock=%v", h[1] != nil, x.fs.Exists(vStoreDir+"/LOCK")))
+			x.notes = append(x.notes, fmt.Sprintf("second=%v lock=%v", h[1] != nil, x.fs.Exists(vLock())))
 			if h[1] != nil && x.free {
 				h[1].Close()
 			}
@@ -717,7 +717,7 @@ func vInitStoreScenarios() {
 			x.Spawn("A", func() { x.Op("A", "Close", func() ([]uint32, error) { return nil, st.Close() }) })
 			x.Spawn("B", func() { openOp(x, "B", &h, 1) })
 			x.Join()
-			x.notes = append(x.notes, fmt.Sprintf("second=%v lock=%v", h[1] != nil, x.fs.Exists(vStoreDir+"/LOCK")))
+			x.notes = append(x.notes, fmt.Sprintf("second=%v lock=%v", h[1] != nil, x.fs.Exists(vLock())))
 			x.notes = append(x.notes, vLockReleasedEarly(x.fs.Log))
 			if h[1] != nil && x.free {
 				h[1].Close()
@@ -742,7 +742,7 @@ func vInitStoreScenarios() {
 			x.Spawn("A", func() { x.Op("A", "Close", func() ([]uint32, error) { return nil, st.Close() }) })
 			x.Spawn("B", func() { x.Op("B", "Close", func() ([]uint32, error) { return nil, st.Close() }) })
 			x.Join()
-			x.notes = append(x.notes, fmt.Sprintf("lock=%v", x.fs.Exists(vStoreDir+"/LOCK")))
+			x.notes = append(x.notes, fmt.Sprintf("lock=%v", x.fs.Exists(vLock())))
 		},
 		Judge: func(x *vSchedExec) [][3]string {
 			var out [][3]string
@@ -774,7 +774,7 @@ func vInitStoreScenarios() {
 				vStoreSearchOp(x, st, "B")
 			})
 			x.Join()
-			x.notes = append(x.notes, fmt.Sprintf("lock=%v", x.fs.Exists(vStoreDir+"/LOCK")))
+			x.notes = append(x.notes, fmt.Sprintf("lock=%v", x.fs.Exists(vLock())))
 		},
 		Judge: func(x *vSchedExec) [][3]string {
 			var out [][3]string
